@@ -304,10 +304,12 @@ def load_function(qualname: str, setter: bool = False) -> FunctionInfo:
         if rest[0] in mi.imports:
             return load_function(mi.imports[rest[0]])
         raise SourceError(f"function {qualname} not found in {mi.path}")
-    if len(rest) == 2:
-        ci = load_class(f"{mod}.{rest[0]}")
+    if len(rest) in (2, 3):
+        cq = ".".join([mod, *rest[:-1]])
+        ci = load_class(cq)
         if ci is None:
-            raise SourceError(f"class {mod}.{rest[0]} not found")
+            raise SourceError(f"class {cq} not found")
+        rest = [rest[-2], rest[-1]]
         for node in ci.methods.get(mangle(ci.node.name, rest[1]), []):
             if is_overload(node):
                 continue
